@@ -46,12 +46,14 @@ theorem C01_new_link (chain : List TCfg) (now : Int) :
     (∀ s ∈ (Link.new chain now).stages, s.inq = [] ∧ s.pc.held = []) ∧
     (Link.new chain now).sent = [] ∧ (Link.new chain now).delivered = [] := by
   refine ⟨?_, ?_, rfl, rfl⟩
-  · simp [Link.new, Stage.start, List.map_map, Function.comp_def]
+  · simp only [Link.new, Stage.fresh_start]
+    simp [Stage.fresh, List.map_map, Function.comp_def]
   · intro s hs
     simp only [Link.new, List.mem_map] at hs
     obtain ⟨t, _, rfl⟩ := hs
+    rw [Stage.fresh_start]
     refine ⟨rfl, ?_⟩
-    simp only [Stage.start, Toxi.Toxic.start]
+    simp only [Toxi.Toxic.start]
     split
     · rfl
     · split <;> (try split) <;> rfl
